@@ -239,8 +239,15 @@ def draw_template(draw, groups: int) -> str:
     """A replacement STRING for ``replace``: literal characters, \\n, \\t, \\\\ (a backslash), the unknown escape
     \\& ("left alone"), and back-references \\N / \\g<N> to groups that exist."""
     parts = []
-    for _ in range(draw(_tpl_n)):
+    n = draw(_tpl_n)
+    want_ref = groups > 0 and draw(_bool)  # at least one back-reference in half of the templates that can have one
+    if want_ref:
+        n = max(n, 1)
+    ref_at = draw(st.integers(0, n - 1)) if want_ref else -1
+    for i in range(n):
         kind = draw(_tpl_kind)
+        if i == ref_at:
+            kind = 'ref' if draw(_bool) else 'gref'
         if kind in ('ref', 'gref') and not groups:
             kind = 'lit'
         if kind == 'lit':
